@@ -13,6 +13,8 @@ import (
 type modTarget struct {
 	key string
 	ref string // "" = whole component
+	lo  string // for element stores: window [lo, hi) of the backing array; "" = the whole array
+	hi  string
 }
 
 func (fv *FV) evalCall(st *State, c *ast.CallExpr) []Term {
@@ -480,9 +482,15 @@ func (fv *FV) callByContract(st *State, fc *FuncContract, pc *PkgContracts, osig
 		fv.assume(st, not(pw))
 	}
 	for i, r := range fc.Requires {
-		phi := fv.specBool(env, r.Expr)
-		fv.oblige(st, fmt.Sprintf("pre.%s#%d.%s", name, ord, label(r, i)), phi, "precondition of "+name+": "+r.Src, nil, pos)
-		fv.assume(st, phi)
+		parts := fv.splitConj(env, r.Expr)
+		for j, phi := range parts {
+			nm := fmt.Sprintf("pre.%s#%d.%s", name, ord, label(r, i))
+			if len(parts) > 1 {
+				nm += fmt.Sprintf("/%d", j+1)
+			}
+			fv.oblige(st, nm, phi, "precondition of "+name+": "+r.Src, nil, pos)
+			fv.assume(st, phi)
+		}
 	}
 	if fv.fc != nil && fv.fc.Decreases != nil && fi != nil && fi == fv.fi && fc.Decreases != nil {
 		// recursive call: measure decreases
@@ -504,6 +512,11 @@ func (fv *FV) callByContract(st *State, fc *FuncContract, pc *PkgContracts, osig
 		r := Term{S: fv.fresh(fmt.Sprintf("%s.r%d", name, i), s), Sort: s, T: t}
 		results = append(results, r)
 		fv.assumeWF(st, r)
+	}
+	for _, g := range fc.GhostRet {
+		t := fv.resolveType(&Env{fv: fv, st: st, pc: pc}, g.Type)
+		s := fv.sortOf(t)
+		env.names[g.Name] = Term{S: fv.fresh(name+"."+g.Name, s), Sort: s, T: t}
 	}
 	penv := &Env{fv: fv, st: st, old: pre, names: env.names, pc: pc, results: results, roles: fc.Roles}
 	for _, e := range fc.Ensures {
@@ -586,7 +599,15 @@ func (fv *FV) modTarget(env *Env, e SExpr) []modTarget {
 				fv.sfail("elems() of a non-slice")
 			}
 			key, _ := fv.elemComp(et)
-			return []modTarget{{key, "(sbase " + s.S + ")"}}
+			return []modTarget{{key: key, ref: "(sbase " + s.S + ")", lo: "(soff " + s.S + ")", hi: "(+ (soff " + s.S + ") (slen " + s.S + "))"}}
+		case "backing":
+			s := fv.spec(env, x.Args[0])
+			et := elemType(s.T)
+			if et == nil {
+				fv.sfail("backing() of a non-slice")
+			}
+			key, _ := fv.elemComp(et)
+			return []modTarget{{key: key, ref: "(sbase " + s.S + ")"}}
 		case "fields":
 			p := fv.spec(env, x.Args[0])
 			pt, ok := p.T.Underlying().(*types.Pointer)
@@ -597,15 +618,15 @@ func (fv *FV) modTarget(env *Env, e SExpr) []modTarget {
 			var out []modTarget
 			for i := 0; i < sty.NumFields(); i++ {
 				key, _ := fv.fieldComp(named, sty.Field(i))
-				out = append(out, modTarget{key, p.S})
+				out = append(out, modTarget{key: key, ref: p.S})
 			}
 			return out
 		case "calls":
 			var out []modTarget
-			out = append(out, modTarget{fv.callsComp("len", ""), ""}, modTarget{fv.callsComp("ret", ""), ""})
+			out = append(out, modTarget{key: fv.callsComp("len", "")}, modTarget{key: fv.callsComp("ret", "")})
 			f := fv.spec(env, x.Args[0])
 			at := fv.yieldArgType(f)
-			out = append(out, modTarget{fv.callsComp("arg", fv.sortOf(at)), ""})
+			out = append(out, modTarget{key: fv.callsComp("arg", fv.sortOf(at))})
 			return out
 		case "mapof":
 			m := fv.spec(env, x.Args[0])
@@ -623,16 +644,16 @@ func (fv *FV) modTarget(env *Env, e SExpr) []modTarget {
 			if gt := fv.ghostField(named, x.Name); gt != "" {
 				t := fv.ghostFieldTerm(env.st, named, x.Name, gt, p)
 				_ = t
-				return []modTarget{{"F:" + shortPkg(pkgPathOf(named.Obj())) + "." + named.Obj().Name() + "." + x.Name + "$ghost", p.S}}
+				return []modTarget{{key: "F:" + shortPkg(pkgPathOf(named.Obj())) + "." + named.Obj().Name() + "." + x.Name + "$ghost", ref: p.S}}
 			}
 			fv.sfail("modifies: no field %s", x.Name)
 		}
 		key, _ := fv.fieldComp(named, f)
-		return []modTarget{{key, p.S}}
+		return []modTarget{{key: key, ref: p.S}}
 	case *SIdent:
 		if gv := fv.lookupGhostVar(env.pc, x.Name); gv != nil {
 			fv.ghostVarTerm(env, gv)
-			return []modTarget{{"G:" + gv.Name, ""}}
+			return []modTarget{{key: "G:" + gv.Name}}
 		}
 		// a map-typed or pointer variable: all of its contents
 		v := fv.spec(env, x)
@@ -659,6 +680,10 @@ func (fv *FV) havoc(st *State, targets []modTarget) {
 		n := fv.fresh("h."+t.key, es)
 		cur := fv.heapGet(st, t.key)
 		fv.heapSet(st, t.key, sto(cur, t.ref, n))
+		// NOTE: for a windowed target (elems(s)) the callee is *checked* to write only inside the window, but the
+		// caller-side havoc is the whole backing array: the quantified "outside the window unchanged" fact made
+		// unrelated queries 100x slower (measured on queue.Add). Contracts that need it state it explicitly with
+		// unchanged_outside(s).
 		if es == sSlice {
 			fv.assumeWF(st, Term{S: n, Sort: sSlice})
 		}
